@@ -392,6 +392,10 @@ def enc_section(sec: dict, lang_names, others):
 
 def dec_section(j, others):
     d = {k: dec_val(v, others) for k, v in j["opts"]}
+    # a language key without a table under it (`python:` left empty) overrides nothing: the reference run gets the section without it
+    for lang in ("python", "typescript", "javascript", "rust"):
+        if lang in d and not isinstance(d[lang], dict):
+            del d[lang]
     for lang, o in j["langs"]:
         d[lang] = {k: dec_val(v, others) for k, v in o}
     return d
@@ -640,6 +644,14 @@ def run(tier: str, seed: int, st: core.ProofStatus) -> core.Result:
                     if ign:
                         sec2["ignore"] = [ign]
                     cases.append({"linter": name, "carriers": {rng.choice(["yaml", "json", "pyproject"]): {lt["sections"][0]: sec2}}, "cli": {}, "explicit_missing": False})
+    # ... and a language sub-section that is present but empty (`python:` with nothing under it): no override at all
+    for name, lt in LINTERS.items():
+        for lang in lt["langs"]:
+            sec = dict(lt["base"])
+            for o in lt["sweeps"]:
+                sec[o] = lt["sweeps"][o][0]
+            sec[lang] = None
+            cases.append({"linter": name, "carriers": {rng.choice(["yaml", "json"]): {lt["sections"][0]: sec}}, "cli": {}, "explicit_missing": False})
     models = []
     for case in cases:
         lt = LINTERS[case["linter"]]
@@ -673,6 +685,9 @@ def run(tier: str, seed: int, st: core.ProofStatus) -> core.Result:
                             flat.pop(k, None)
                         else:
                             flat[k] = dec_val(v, oth)
+                    for lg in ("python", "typescript", "javascript", "rust"):
+                        if lg in flat and not isinstance(flat[lg], dict):
+                            del flat[lg]       # `python:` left empty overrides nothing
                     parts.append((lang, flat))
                 expect[tag] = (lt["sections"][0].replace("-", "_"), parts, outs[0]["ignore"])
             else:
